@@ -144,6 +144,12 @@ def lfda_case(draw):
     desc['sizes'] = [4] + [max(s, d + 3) for s in desc['sizes'][1:]]
     desc['labels'] = 'range'
   k = draw(st.one_of(st.none(), st.integers(1, max(1, d - 1)), st.integers(d, d + 3)))
+  tiny = draw(st.integers(0, 9))
+  if tiny <= 2:
+    # "any class layout": an extra class of 1, 2 or 3 members (smaller than k + 1), in a drawn label position
+    desc['sizes'] = list(desc['sizes'])
+    desc['sizes'].insert(draw(st.integers(0, len(desc['sizes']))), tiny + 1)
+    desc['labels'] = 'range'
   return dict(kind='lfda', desc=desc, k=k, emb=draw(st.sampled_from(['weighted', 'orthonormalized', 'plain'])),
               nc=draw(st.one_of(st.none(), st.integers(1, d))))
 
@@ -175,7 +181,7 @@ def check_lfda(case, stats):
   Sw, Sb = O.lfda_scatter(X, y, keff)
   ref, _ = O.gen_eigvals(Sb, Sw)
   small_class = min(case['desc']['sizes']) <= keff
-  tag = 'small-class' if small_class else 'all-classes-large'
+  tag = 'tiny-class' if min(case['desc']['sizes']) < 4 else ('small-class' if small_class else 'all-classes-large')
   lam = []
   for i, l in enumerate(L):
     den = float(l.dot(Sw).dot(l))
